@@ -91,8 +91,14 @@ def r12_1(ctx):
     got = [[to_text(x) for x in o.value] if o.kind == "return" else outcome_text(o) for o in outs]
     ctx.check("Immediate: raw pure only for the first copy-assignment", got == [["s", 'VARL("s")', 'VARL("s")']], "['s', 'VARL(\"s\")', 'VARL(\"s\")']", str(got), fn_where(idx, fim))
     fa = idx.func("Assignment.il_write")
-    src = U(fa.node)
-    ctx.check("the copy-assignment announces itself to the immediate", "isinstance(self.src, Immediate)" in src and "self.src.assign_usage = True" in src, "src.assign_usage = True before reading an Immediate source", "differs", fn_where(idx, fa))
+    et = idx.enum_table("EffectType")
+    def once3(i):
+        imm = AObj("Immediate", {"reads": 0, "assign_reads": 0, "assign_usage": False, "name": "s", "isa_name": "s"}, label="imm")
+        a = AObj("Assignment", {"type": EnumV("EffectType", "SETL", et["SETL"]), "dest": imm, "src": imm}, label="self")
+        return i.call_function(fa, [], self_obj=a)
+    outs = Interp(idx).explore(once3)
+    got = {normalise(outcome_text(o)) for o in outs}
+    ctx.check("the immediate's copy-assignment consumes the raw pure", got == {'SETL("s", s)'}, 'SETL("s", s)', str(sorted(got)), fn_where(idx, fa))
 
 
 @rule("R12.2", "C12", "single initialisation: a PureExec / Hybrid prints its initialiser at most once", min_instances=3)
